@@ -382,6 +382,7 @@ tdigest<T, A> tdigest<T, A>::deserialize(std::istream& is, const A& allocator) {
   const auto preamble_longs = read<uint8_t>(is);
   const auto serial_version = read<uint8_t>(is);
   const auto sketch_type = read<uint8_t>(is);
+  if (!is.good()) throw std::runtime_error("error reading from std::istream");
   if (sketch_type != SKETCH_TYPE) {
     if (preamble_longs == 0 && serial_version == 0 && sketch_type == 0) return deserialize_compat(is, allocator);
     throw std::invalid_argument("sketch type mismatch: expected " + std::to_string(SKETCH_TYPE) + ", actual " + std::to_string(sketch_type));
@@ -391,19 +392,21 @@ tdigest<T, A> tdigest<T, A>::deserialize(std::istream& is, const A& allocator) {
   }
   const auto k = read<uint16_t>(is);
   const auto flags_byte = read<uint8_t>(is);
+  read<uint16_t>(is); // unused
+  if (!is.good()) throw std::runtime_error("error reading from std::istream");
   const bool is_empty = flags_byte & (1 << flags::IS_EMPTY);
   const bool is_single_value = flags_byte & (1 << flags::IS_SINGLE_VALUE);
   const uint8_t expected_preamble_longs = is_empty || is_single_value ? PREAMBLE_LONGS_EMPTY_OR_SINGLE : PREAMBLE_LONGS_MULTIPLE;
   if (preamble_longs != expected_preamble_longs) {
     throw std::invalid_argument("preamble longs mismatch: expected " + std::to_string(expected_preamble_longs) + ", actual " + std::to_string(preamble_longs));
   }
-  read<uint16_t>(is); // unused
 
   if (is_empty) return tdigest(k, allocator);
 
   const bool reverse_merge = flags_byte & (1 << flags::REVERSE_MERGE);
   if (is_single_value) {
     const T value = read<T>(is);
+    if (!is.good()) throw std::runtime_error("error reading from std::istream");
     return tdigest(reverse_merge, k, value, value, vector_centroid(1, centroid(value, 1), allocator), 1, vector_t(allocator));
   }
 
@@ -412,10 +415,13 @@ tdigest<T, A> tdigest<T, A>::deserialize(std::istream& is, const A& allocator) {
 
   const T min = read<T>(is);
   const T max = read<T>(is);
+  if (!is.good()) throw std::runtime_error("error reading from std::istream");
+  check_sizes(k, num_centroids, num_buffered);
   vector_centroid centroids(num_centroids, centroid(0, 0), allocator);
   if (num_centroids > 0) read(is, centroids.data(), num_centroids * sizeof(centroid));
   vector_t buffer(num_buffered, 0, allocator);
   if (num_buffered > 0) read(is, buffer.data(), num_buffered * sizeof(T));
+  if (!is.good()) throw std::runtime_error("error reading from std::istream");
   uint64_t weight = 0;
   for (const auto& c: centroids) weight += c.get_weight();
   return tdigest(reverse_merge, k, min, max, std::move(centroids), weight, std::move(buffer));
@@ -464,6 +470,7 @@ tdigest<T, A> tdigest<T, A>::deserialize(const void* bytes, size_t size, const A
   uint32_t num_buffered;
   ptr += copy_from_mem(ptr, num_buffered);
 
+  check_sizes(k, num_centroids, num_buffered);
   ensure_minimum_memory(end_ptr - ptr, sizeof(T) * 2 + sizeof(centroid) * num_centroids + sizeof(T) * num_buffered);
   T min;
   ptr += copy_from_mem(ptr, min);
@@ -485,6 +492,7 @@ tdigest<T, A> tdigest<T, A>::deserialize_compat(std::istream& is, const A& alloc
   // this method was called because the first three bytes were zeros
   // so read one more byte to see if it looks like the reference implementation format
   const auto type = read<uint8_t>(is);
+  if (!is.good()) throw std::runtime_error("error reading from std::istream");
   if (type != COMPAT_DOUBLE && type != COMPAT_FLOAT) {
     throw std::invalid_argument("unexpected sketch preamble: 0 0 0 " + std::to_string(type));
   }
@@ -493,12 +501,15 @@ tdigest<T, A> tdigest<T, A>::deserialize_compat(std::istream& is, const A& alloc
     const auto max = read_big_endian<double>(is);
     const auto k = static_cast<uint16_t>(read_big_endian<double>(is));
     const auto num_centroids = read_big_endian<uint32_t>(is);
-    vector_centroid centroids(num_centroids, centroid(0, 0), allocator);
+    if (!is.good()) throw std::runtime_error("error reading from std::istream");
+    // the array grows as centroids arrive: the count comes from the stream and must not size an allocation
+    vector_centroid centroids(allocator);
     uint64_t total_weight = 0;
-    for (auto& c: centroids) {
+    for (uint32_t i = 0; i < num_centroids; ++i) {
       const W weight = static_cast<W>(read_big_endian<double>(is));
       const auto mean = read_big_endian<double>(is);
-      c = centroid(mean, weight);
+      if (!is.good()) throw std::runtime_error("error reading from std::istream");
+      centroids.push_back(centroid(mean, weight));
       total_weight += weight;
     }
     return tdigest(false, k, min, max, std::move(centroids), total_weight, vector_t(allocator));
@@ -511,12 +522,14 @@ tdigest<T, A> tdigest<T, A>::deserialize_compat(std::istream& is, const A& alloc
   // they can be derived from k in the constructor
   read<uint32_t>(is); // unused
   const auto num_centroids = read_big_endian<uint16_t>(is);
-  vector_centroid centroids(num_centroids, centroid(0, 0), allocator);
+  if (!is.good()) throw std::runtime_error("error reading from std::istream");
+  vector_centroid centroids(allocator);
   uint64_t total_weight = 0;
-  for (auto& c: centroids) {
+  for (uint16_t i = 0; i < num_centroids; ++i) {
     const W weight = static_cast<W>(read_big_endian<float>(is));
     const auto mean = read_big_endian<float>(is);
-    c = centroid(mean, weight);
+    if (!is.good()) throw std::runtime_error("error reading from std::istream");
+    centroids.push_back(centroid(mean, weight));
     total_weight += weight;
   }
   return tdigest(false, k, min, max, std::move(centroids), total_weight, vector_t(allocator));
@@ -619,6 +632,19 @@ buffer_(std::move(buffer))
   centroids_capacity_ = 2 * k_ + fudge;
   centroids_.reserve(centroids_capacity_);
   buffer_.reserve(centroids_capacity_ * BUFFER_MULTIPLIER);
+}
+
+// the digest never holds more than centroids_capacity_ centroids and BUFFER_MULTIPLIER times as many buffered values
+// (see the constructor and update()), so larger counts cannot come from a valid image
+template<typename T, typename A>
+void tdigest<T, A>::check_sizes(uint16_t k, uint32_t num_centroids, uint32_t num_buffered) {
+  if (k < 10) throw std::invalid_argument("k must be at least 10");
+  const size_t fudge = k < 30 ? 30 : 10;
+  const size_t centroids_capacity = 2 * static_cast<size_t>(k) + fudge;
+  if (num_centroids > centroids_capacity || num_buffered > centroids_capacity * BUFFER_MULTIPLIER) {
+    throw std::invalid_argument("Possible corruption: " + std::to_string(num_centroids) + " centroids and "
+      + std::to_string(num_buffered) + " buffered values exceed the capacity for k=" + std::to_string(k));
+  }
 }
 
 template<typename T, typename A>
